@@ -175,6 +175,7 @@ class Ring:
         self.keys: dict = {}
         self.memo: dict = {}
         self.positive: set[int] = set()  # atom ids declared > 0 (for sqrt(k^2 e) style optional rules)
+        self.atom_args: dict = {}  # atom id -> tuple of argument R's (function atoms)
 
     # -- interning -------------------------------------------------------------------
     def intern(self, k):
@@ -196,8 +197,19 @@ class Ring:
     def const(self, c):
         return R(self, p_const(c))
 
-    def atom_R(self, key, red=None):
-        return R(self, {((self.atom(key, red), 1),): ONE})
+    def atom_R(self, key, red=None, args=None):
+        i = self.atom(key, red)
+        if args is not None and i not in self.atom_args:
+            self.atom_args[i] = tuple(args)
+        return R(self, {((i, 1),): ONE})
+
+    def single_atom(self, r: "R"):
+        """atom id if r is exactly one atom with coefficient 1, else None"""
+        if r.d == P_ONE and len(r.n) == 1:
+            (m, c), = r.n.items()
+            if c == 1 and len(m) == 1 and m[0][1] == 1:
+                return m[0][0]
+        return None
 
     def param(self, name):
         return self.atom_R(("param", name))
@@ -234,7 +246,7 @@ class Ring:
                     for m2, c2 in rep.items():
                         self._acc(mono_mul(rest, m2), c * c2, out)
                     return
-            elif e <= -2 and kind == "sqrt" and r[2] is not None:
+            elif e <= -2 and kind != "sin" and len(r) > 2 and r[2] is not None:
                 rest = tuple((x, y) for x, y in m if x != a)
                 if e < -2:
                     rest = mono_mul(rest, ((a, e + 2),))
@@ -267,6 +279,26 @@ class Ring:
     def fn(self, name, args, kw=()):
         """lib.<name>(*args, **kw) as a ring value"""
         kwk = tuple((k, v.key()) for k, v in kw)
+        rules = self.rules
+        if rules:
+            if name == "nan_to_num" and "nan_to_num_id" in rules and len(args) == 1:
+                return args[0]
+            if name in ("cos", "sin") and len(args) == 1:
+                r = self._trig_rules(name, args[0])
+                if r is not None:
+                    return r
+            if name == "sinh" and "sinh_arcsinh" in rules and len(args) == 1:
+                i = self.single_atom(args[0])
+                if i is not None and self.atom_desc[i][:2] == ("fn", "arcsinh"):
+                    return self.atom_args[i][0]
+            if name == "exp" and "exp_log" in rules and len(args) == 1:
+                i = self.single_atom(args[0])
+                if i is not None and self.atom_desc[i][:2] == ("fn", "log"):
+                    return self.atom_args[i][0]
+            if name == "log" and "exp_log" in rules and len(args) == 1:
+                i = self.single_atom(args[0])
+                if i is not None and self.atom_desc[i][:2] == ("fn", "exp"):
+                    return self.atom_args[i][0]
         if len(args) == 1 and not kw:
             a = args[0]
             if name in EVEN:
@@ -274,18 +306,18 @@ class Ring:
                 if name == "absolute":
                     if a.is_const():
                         return self.const(abs(a.const()))
-                    red = ("abs", self.p_mul(a.n, a.n)) if a.is_poly() else ("abs", None)
-                    return self.atom_R(("fn", name, (a.key(),), ()), red)
-                return self.atom_R(("fn", name, (a.key(),), ()))
+                    red = self._sq_red("abs", a)
+                    return self.atom_R(("fn", name, (a.key(),), ()), red, [a])
+                return self.atom_R(("fn", name, (a.key(),), ()), None, [a])
             if name in ODD:
                 a, fl = self._sign_norm(a)
                 if a.is_zero() and name != "sign":
                     return self.const(0)
                 if name == "sin":
                     cos_id = self.atom(("fn", "cos", (a.key(),), ()))
-                    r = self.atom_R(("fn", "sin", (a.key(),), ()), ("sin", cos_id))
+                    r = self.atom_R(("fn", "sin", (a.key(),), ()), ("sin", cos_id), [a])
                 else:
-                    r = self.atom_R(("fn", name, (a.key(),), ()))
+                    r = self.atom_R(("fn", name, (a.key(),), ()), None, [a])
                 return -r if fl else r
             if name == "sqrt":
                 return self.sqrt(a)
@@ -293,13 +325,63 @@ class Ring:
             a, s = args
             a, _ = self._sign_norm(a)  # copysign ignores the sign of its first argument
             s, fl = self._sign_norm(s)
-            red = ("copysign", self.p_mul(a.n, a.n)) if a.is_poly() else ("copysign", None)
-            r = self.atom_R(("fn", "copysign", (a.key(), s.key()), ()), red)
+            red = self._sq_red("copysign", a)
+            r = self.atom_R(("fn", "copysign", (a.key(), s.key()), ()), red, [a, s])
             return -r if fl else r
         if name in COMMUTATIVE and len(args) == 2 and not kw:
             ks = tuple(sorted(a.key() for a in args))
             return self.atom_R(("fn", name, ks, ()))
-        return self.atom_R(("fn", name, tuple(a.key() for a in args), kwk))
+        return self.atom_R(("fn", name, tuple(a.key() for a in args), kwk), None, args)
+
+    def _trig_rules(self, name, a: R):
+        rules = self.rules
+        if "trig_arctan2" in rules:
+            i = self.single_atom(a)
+            neg = False
+            if i is None:
+                i = self.single_atom(-a)
+                neg = i is not None
+            if i is not None and self.atom_desc[i][:2] == ("fn", "arctan2"):
+                y, x = self.atom_args[i]
+                h = self.sqrt(x * x + y * y)
+                if name == "cos":
+                    return x / h
+                return -(y / h) if neg else y / h
+        if "angle_addition" in rules and a.is_poly() and a.n:
+            terms = sorted(a.n.items())
+            m, cf = terms[0]
+            if len(terms) == 1:
+                if m == () or cf.denominator != 1 or abs(cf) < 2:
+                    return None
+                first = R(self, {m: Fraction(1 if cf > 0 else -1)})
+                rest = R(self, {m: cf - (1 if cf > 0 else -1)})
+            else:
+                first = R(self, {m: cf})
+                rest = R(self, dict(terms[1:]))
+            c1, s1 = self.fn("cos", [first]), self.fn("sin", [first])
+            c2, s2 = self.fn("cos", [rest]), self.fn("sin", [rest])
+            if name == "cos":
+                return c1 * c2 - s1 * s2
+            return s1 * c2 + c1 * s2
+        return None
+
+    def _sq_red(self, kind, a: "R"):
+        """reduction entry for atoms whose square is a^2: (kind, a^2 as poly | None, inverse monomial | None)"""
+        if not a.is_poly():
+            return (kind, None, None)
+        sq = self.p_mul(a.n, a.n)
+        inv = None
+        if len(sq) == 1:
+            (m, cf), = sq.items()
+            inv = (tuple((x, -y) for x, y in m), ONE / cf)
+        return (kind, sq, inv)
+
+    def abs_atom(self, i) -> "R":
+        """|atom i| as a ring value: the atom itself when it is known non-negative"""
+        d = self.atom_desc[i]
+        if i in self.positive or (d[0] == "fn" and d[1] in ("absolute", "sqrt", "exp", "cosh")):
+            return R(self, {((i, 1),): ONE})
+        return self.fn("absolute", [R(self, {((i, 1),): ONE})])
 
     def sqrt(self, a: R):
         if a.is_const():
@@ -313,7 +395,31 @@ class Ring:
         if rep is not None and len(rep) == 1:
             (m, c), = rep.items()
             inv = (tuple((x, -y) for x, y in m), ONE / c)
-        return self.atom_R(("fn", "sqrt", (a.key(),), ()), ("sqrt", rep, inv))
+        if rep is not None and len(rep) == 1:
+            # sqrt(c * prod a_i^(2k_i)) -> sqrt(c) * prod |a_i|^(k_i)      (sqrt(e^2) = |e|, unconditional)
+            (m, cf), = rep.items()
+            if m and all(y % 2 == 0 for _, y in m) and cf > 0:
+                rn, rd = math.isqrt(cf.numerator), math.isqrt(cf.denominator)
+                if rn * rn == cf.numerator and rd * rd == cf.denominator:
+                    out = self.const(Fraction(rn, rd))
+                    for x, y in m:
+                        out = out * self.abs_atom(x).powi(y // 2)
+                    return out
+        if "sqrt_pos" in self.rules and rep is not None and len(rep) > 1 and self.positive:
+            # common even power of positive atoms: sqrt(k^2 e) -> k sqrt(e)
+            pos_atoms = {x for m in rep for x, _ in m if x in self.positive}
+            common = {}
+            for x in pos_atoms:
+                mn = min(dict(m).get(x, 0) for m in rep)
+                ev = mn - (mn % 2)
+                if ev:
+                    common[x] = ev
+            if common:
+                out_m = tuple(sorted((x, y // 2) for x, y in common.items()))
+                div_m = tuple(sorted((x, -y) for x, y in common.items()))
+                inner = R(self, self.p_mul(rep, {div_m: ONE}))
+                return R(self, {out_m: ONE}) * self.sqrt(inner)
+        return self.atom_R(("fn", "sqrt", (a.key(),), ()), ("sqrt", rep, inv), [a])
 
     # -- IR -> ring ----------------------------------------------------------------------
     def of(self, n: ir.Node) -> R:
